@@ -1,7 +1,108 @@
-"""C05 -- see contracts/registry.json for the clauses; D kernels + bounded apply-level stand-in."""
+"""C05 -- see contracts/registry.json for the clauses; D kernels + bounded apply-level stand-in + failure injection."""
+import io
+import itertools
+import random
+
+import gtirb
+
+from pyvc.run import BResult, Job
+
 from . import apply_bounded, kernels
+
+
+class _Boom(Exception):
+    """the exception injected into the k-th patch callback"""
+
+
+def failure_injection(tier, seed):
+    """C05, second sentence: "If apply() instead fails because a patch raises, what is left behind is still closed and serializable:
+    ir.cfg is the caller's CFG object holding all live edges and no symbol is stranded without a referent" -- for an exception
+    injected into the k-th patch callback, for every k"""
+    def run():
+        from bounded import driver, scen, validators as VAL
+        from gtirb_rewriting import Patch, RewritingContext, patch_constraints
+        br = BResult()
+        br.bound = ("the multi-edit scenarios of bounded/scen.py (pairs in one block, edits in several blocks, whole-block deletions before a patch) that carry at least one patch; "
+                    "the k-th patch callback raises, for every k; %s" % ("all pairs" if tier == "thorough" else "a seed-chosen slice of the pairs"))
+        br.clauses = ["C05/failure/the-injected-exception-propagates", "C05/failure/ir.cfg-is-the-callers-cfg-object", "C05/failure/cfg-endpoints-in-module",
+                      "C05/failure/no-symbol-stranded", "C05/failure/serialisable-and-round-trips", "C05/failure/aux-data-nodes-in-module"]
+        distinct = set()
+        rnd = random.Random(seed)
+        space = [(sh, ed) for sh, ed in driver.scenario_space(tier, seed, kinds=["plain", "call", "jmp"], patches=["plain", "callg", "jmpL2", "lab"], callee2=(False, True))
+                 if len(ed) >= 2 and any(e[3] for e in ed)]
+        if tier == "quick":
+            rnd.shuffle(space)
+            space = space[:260]
+        for shape, edits in space:
+            edits = [tuple(e) + ((1,) if len(e) == 4 else ()) for e in edits]
+            npatch = sum(1 for e in edits if e[3])
+            for k in range(npatch):
+                ir, m, bi, blocks, fl = scen.build(shape)
+                cfg0 = ir.cfg
+                syms0 = {s.name for s in m.symbols}
+                # the patch callbacks run in application order (block address, offset, registration order)
+                order = sorted(range(len(edits)), key=lambda i: (blocks[edits[i][4]].address, edits[i][1], i))
+                patch_rank = {}
+                for i in order:
+                    if edits[i][3]:
+                        patch_rank[i] = len(patch_rank)
+                rc = RewritingContext(m, fl)
+                for i, e in enumerate(edits):
+                    op, o, l, pn, t = e
+                    if pn and patch_rank[i] == k:
+                        @patch_constraints()
+                        def boom(ctx):
+                            raise _Boom("injected")
+                        p = Patch.from_function(boom)
+                        if op == "ins":
+                            rc.insert_at(blocks[t], o, p)
+                        else:
+                            rc.replace_at(blocks[t], o, l, p)
+                    else:
+                        scen.register(rc, blocks[t], e[:4])
+                br.cases += 1
+                distinct.add((repr(shape), tuple(edits), k))
+                desc = {"shape": repr(shape), "edits": [list(e) for e in edits], "raising patch (application order)": k}
+                try:
+                    rc.apply()
+                    br.failures.append({"clause": "C05/failure/the-injected-exception-propagates", "witness": desc, "detail": "apply() returned normally"})
+                    continue
+                except _Boom:
+                    pass
+                except Exception as ex:       # noqa
+                    br.failures.append({"clause": "C05/failure/the-injected-exception-propagates", "witness": desc, "detail": "%s: %s" % (type(ex).__name__, str(ex)[:100])})
+                    continue
+                if ir.cfg is not cfg0:
+                    br.failures.append({"clause": "C05/failure/ir.cfg-is-the-callers-cfg-object", "witness": desc, "detail": "ir.cfg was replaced"})
+                for clause, detail in VAL.closure_problems(ir, m):
+                    cl = {"C05/cfg-endpoints-in-module": "C05/failure/cfg-endpoints-in-module", "C05/symbol-referents-in-module": "C05/failure/no-symbol-stranded"}.get(clause, "C05/failure/aux-data-nodes-in-module")
+                    br.failures.append({"clause": cl, "witness": desc, "detail": detail})
+                for s in m.symbols:
+                    if s.name in syms0 and s.referent is None and s.value is None:
+                        br.failures.append({"clause": "C05/failure/no-symbol-stranded", "witness": desc, "detail": "%s has no referent" % s.name})
+                try:
+                    buf = io.BytesIO()
+                    ir.save_protobuf_file(buf)
+                    buf.seek(0)
+                    ir2 = gtirb.IR.load_protobuf_file(buf)
+                    if VAL.V_canon(ir) != VAL.V_canon(ir2):
+                        br.failures.append({"clause": "C05/failure/serialisable-and-round-trips", "witness": desc, "detail": "canonical dumps differ after save/load"})
+                except Exception as ex:       # noqa
+                    br.failures.append({"clause": "C05/failure/serialisable-and-round-trips", "witness": desc, "detail": "%s: %s" % (type(ex).__name__, str(ex)[:100])})
+                if len(br.samples) < 2:
+                    br.samples.append(desc)
+        br.nontrivial = len(distinct)
+        return br
+    return run
 
 
 def jobs(tier="quick", seed=0):
     yield from kernels.jobs_for("C05", tier, seed)
     yield apply_bounded.job("C05", tier, seed)
+    yield Job("C05/failure-injection-bounded", failure_injection(tier, seed), kind="B", func="gtirb_rewriting.rewriting:RewritingContext.apply (failure path)")
+    # the contract of make_return_cache ("the caller's CFG object gets the final edges even when the body raises") is discharged here too
+    from . import c20
+    for j in c20.jobs(tier, seed):
+        if j.id == "C20/make_return_cache":
+            j.id = "C05/dep/" + j.id
+            yield j
